@@ -49,13 +49,46 @@ O(id='asn_INTEGER2long.b24', props=['C16'], kind='bounded', entry='h_INTEGER2lon
 O(id='asn_INTEGER2ulong.b24', props=['C16'], kind='bounded', entry='h_INTEGER2ulong', functions=['asn_INTEGER2ulong'],
   unwind=26, bound=B24, min_props=40, **INT)
 
-T7 = 'bounded stand-in: every text of <= 7 characters against a reference reading (loops unwound, unwinding assertions)'
+T7 = 'bounded stand-in: every text of <= 7 characters (<= 5 for the long/unsigned long front ends) against a reference reading (loops unwound, unwinding assertions)'
 TE = 'bounded stand-in: every text [sign][0] + {MAX/10-1, MAX/10, MAX/10+1} + <= 3 arbitrary characters, i.e. the neighbourhood of the overflow boundary (18 concrete prefixes x 3 symbolic characters)'
 INT_SAT = dict(INT, backends=['sat'])
 for _f, _e in (('asn_strtoimax_lim', 'h_strtoimax'), ('asn_strtoumax_lim', 'h_strtoumax'), ('asn_strtol_lim', 'h_strtol'), ('asn_strtoul_lim', 'h_strtoul')):
     O(id=_f + '.t7', props=['C16', 'C04'], kind='bounded', entry=_e + '_t7', functions=[_f], unwind=10, bound=T7,
-      defines=['VF_MAXTXT=8'], min_props=30, timeout=600, **INT_SAT)
+      defines=['VF_MAXTXT=8' if 'max' in _f else 'VF_MAXTXT=6'], min_props=30, timeout=900, **INT_SAT)
     O(id=_f + '.edge', props=['C16', 'C04'], kind='bounded', entry=_e + '_edge', functions=[_f], unwind=30, bound=TE,
       min_props=30, timeout=1500, tier='experimental', **INT_SAT)
+
+# ---------------------------------------------------------------- C16: REAL
+REALK = dict(harness='harness/real_conv.c', units=[SK + 'REAL.c'], include=[], backends=['sat'])
+O(id='asn_double2REAL.be', props=['C16', 'C14'], kind='width', entry='h_double2REAL', functions=['asn_double2REAL'],
+  proves=['asn_double2REAL'], big_endian=True, stubs=['stubs/math.c'], unwind=10,
+  bound='big-endian machine model of the same source (goto-cc --big-endian): all 2^64 bit patterns; loops bounded by sizeof(double)=8',
+  trusted=['ilogb: stub over IEEE-754 fields (stubs/math.c)', 'asn_double2REAL: proved under the big-endian machine model; the 3-line little-endian byte-gather loop forms a pointer before the object and is not within CBMC reach (see asn_double2REAL.le-grid)'],
+  cbmc=['--malloc-may-fail', '--malloc-fail-null', '--memory-leak-check'], min_props=100, timeout=600, **REALK)
+
+O(id='REAL_roundtrip.be', props=['C16'], kind='width', entry='h_REAL_roundtrip', functions=['asn_double2REAL', 'asn_REAL2double'],
+  big_endian=True, stubs=['stubs/math.c'], unwind=10, tier='experimental',
+  bound='big-endian machine model; all 2^64 bit patterns; loops bounded by 8 octets', min_props=100, timeout=1800, **REALK)
+O(id='asn_double2REAL.le-grid', props=['C16'], kind='native', harness='harness/real_grid.c', entry='main',
+  functions=['asn_double2REAL', 'asn_REAL2double'], no_canary=True,
+  bound='native grid on the real (little-endian) machine: 2048 exponents x 2 signs x 314 boundary mantissas + 300000 VERIF_SEED-driven random bit patterns; octets vs spec_der_real, round trip through asn_REAL2double, ilogb stub vs libc',
+  timeout=900)
+
+# ---------------------------------------------------------------- C17: OBJECT IDENTIFIER
+OID = dict(harness='harness/oid.c', units=[SK + 'OBJECT_IDENTIFIER.c'], include=['contracts/OBJECT_IDENTIFIER.h'], backends=['cvc5', 'sat'])
+O(id='OID_set_single_arc', props=['C17', 'C07'], kind='width', entry='h_set_single_arc', enforce=['OBJECT_IDENTIFIER_set_single_arc'],
+  functions=['OBJECT_IDENTIFIER_set_single_arc', 'OBJECT_IDENTIFIER_get_single_arc'], unwind=14,
+  bound='all 2^32 arc values; loops bounded by ceil(32/7)=5 octets', min_props=40, **OID)
+O(id='OID_get_single_arc.b12', props=['C17', 'C04', 'C03'], kind='bounded', entry='h_get_single_arc', functions=['OBJECT_IDENTIFIER_get_single_arc'],
+  unwind=14, bound='octet strings of at most 12 octets (5 significant + 7 padding)', min_props=30, **OID)
+O(id='OID_get_single_arc.safe', props=['C04', 'C17'], entry='h_get_single_arc_safe', enforce=['OBJECT_IDENTIFIER_get_single_arc'],
+  loops=True, min_props=40, **dict(OID, backends=['sat']))
+O(id='OID_get_first_arcs', props=['C17'], kind='width', entry='h_get_first_arcs', functions=['OBJECT_IDENTIFIER_get_first_arcs'],
+  unwind=10, bound='first subidentifier of at most 8 octets', min_props=30, **OID)
+O(id='OID_arcs_roundtrip.a4', props=['C17', 'C14'], kind='bounded', entry='h_arcs_roundtrip',
+  functions=['OBJECT_IDENTIFIER_set_arcs', 'OBJECT_IDENTIFIER_get_arcs'], unwind=7, defines=['VF_MAXARCS=4'],
+  bound='arc vectors of at most 4 arcs, every arc value (unwind 7 = 5 octets per arc + 2; get_arcs loop 5)',
+  cbmc=['--unwindset', 'OBJECT_IDENTIFIER_get_arcs.0:6', '--malloc-may-fail', '--malloc-fail-null', '--memory-leak-check'], min_props=60,
+  **dict(OID, backends=['sat']))
 
 UNVERIFIED = {}
